@@ -121,3 +121,75 @@ var (
 	realTypes = typeSet("Real64", "Real32")
 	real64    = typeSet("Real64")
 )
+
+// ---- SparseConst*Vector operand storage class ('c') --------------------------------
+//
+// The read-only sparse vectors exist for 7 element types. A 'c' operand is built with
+// NewSparseConst<T>Vector (or, when the pattern holds an explicitly stored zero, with
+// UnsafeSparseConst<T>Vector, which keeps the lists as given).
+
+type cinfo struct {
+	name  string
+	class string // int | float
+	mk    func(idx []int, vals []float64, n int, unsafe bool) ad.ConstVector
+	as    func(v ad.ConstVector) ad.ConstVector
+}
+
+func cmk[T number, V ad.ConstVector](nw, us func([]int, []T, int) V) func([]int, []float64, int, bool) ad.ConstVector {
+	return func(idx []int, vals []float64, n int, unsafe bool) ad.ConstVector {
+		if unsafe {
+			return us(idx, conv[T](vals), n)
+		}
+		return nw(idx, conv[T](vals), n)
+	}
+}
+
+func cas[V ad.ConstVector](f func(ad.ConstVector) V) func(ad.ConstVector) ad.ConstVector {
+	return func(v ad.ConstVector) ad.ConstVector { return f(v) }
+}
+
+var ctypes = []*cinfo{
+	{"Float64", "float", cmk(ad.NewSparseConstFloat64Vector, ad.UnsafeSparseConstFloat64Vector), cas(ad.AsSparseConstFloat64Vector)},
+	{"Int", "int", cmk(ad.NewSparseConstIntVector, ad.UnsafeSparseConstIntVector), cas(ad.AsSparseConstIntVector)},
+	{"Float32", "float", cmk(ad.NewSparseConstFloat32Vector, ad.UnsafeSparseConstFloat32Vector), cas(ad.AsSparseConstFloat32Vector)},
+	{"Int8", "int", cmk(ad.NewSparseConstInt8Vector, ad.UnsafeSparseConstInt8Vector), cas(ad.AsSparseConstInt8Vector)},
+	{"Int16", "int", cmk(ad.NewSparseConstInt16Vector, ad.UnsafeSparseConstInt16Vector), cas(ad.AsSparseConstInt16Vector)},
+	{"Int32", "int", cmk(ad.NewSparseConstInt32Vector, ad.UnsafeSparseConstInt32Vector), cas(ad.AsSparseConstInt32Vector)},
+	{"Int64", "int", cmk(ad.NewSparseConstInt64Vector, ad.UnsafeSparseConstInt64Vector), cas(ad.AsSparseConstInt64Vector)},
+}
+
+func ctypeByName(n string) *cinfo {
+	for _, t := range ctypes {
+		if t.name == n {
+			return t
+		}
+	}
+	return nil
+}
+
+// pairedConst: the read-only element type of the same precision as t.
+func pairedConst(t *tinfo) *cinfo {
+	switch t.name {
+	case "Real64":
+		return ctypeByName("Float64")
+	case "Real32":
+		return ctypeByName("Float32")
+	}
+	return ctypeByName(t.name)
+}
+
+// roundTo maps a model value to what an element of the named type holds after
+// SetFloat64 (identity for the {0,1,-2} alphabet; matters for the tiny values of the
+// Equals alphabets).
+func roundTo(name string, x float64) float64 {
+	switch name {
+	case "Float64", "Real64":
+		return x
+	case "Float32", "Real32":
+		return float64(float32(x))
+	}
+	if x != x || x > 1e18 || x < -1e18 {
+		return x // not used with integer types
+	}
+	return float64(int64(x))
+}
